@@ -182,6 +182,19 @@ theorem history_length (l : LL) (os : List Obs) : (runObs l os).1.length = os.le
         rw [hy] at this
         simp [this]
 
+/-- the property in the form a user relies on: what an observation answers does not depend on what was observed before —
+    after *any* two histories on lazy lists over the same source, the same observation gives the same answer -/
+theorem observation_history_independent (src : List Int) (os1 os2 : List Obs) (o : Obs) (ho : o.stepOK) :
+    ((runObs (LL.fresh src) os1).2.observe o).1 = ((runObs (LL.fresh src) os2).2.observe o).1 := by
+  obtain ⟨_, hi1, hs1⟩ := history_correct src os1 (LL.fresh src) (fresh_inv src) rfl
+  obtain ⟨_, hi2, hs2⟩ := history_correct src os2 (LL.fresh src) (fresh_inv src) rfl
+  rw [step_correct _ hi1 o ho, step_correct _ hi2 o ho, hs1, hs2]
+
+/-- … in particular an observation repeated after anything else answers what it answered on the fresh list -/
+theorem observation_repeatable (src : List Int) (os : List Obs) (o : Obs) (ho : o.stepOK) :
+    ((runObs (LL.fresh src) os).2.observe o).1 = ((LL.fresh src).observe o).1 := by
+  simpa [runObs] using observation_history_independent src os [] o ho
+
 /-- non-vacuity: `len`, `ll[-1]`, `bool`, `len` on `[1,2,3]` (the history that exposed F11 / F12) -/
 example : (runObs (LL.fresh [1, 2, 3]) [.len, .getItem (-1), .bool, .len]).1 = [.int 3, .int 3, .int 1, .int 3] := by
   decide
